@@ -143,6 +143,64 @@ class SwapLettersOneWay(DisjointUnionStrategy[AvoidingWithPrefix, Word]):
         return cls()
 
 
+class PermuteLettersOneWay(DisjointUnionStrategy[AvoidingWithPrefix, Word]):
+    """A relabelling of the alphabet (letter i of the alphabet becomes letter perm[i]) offered as an
+    ordinary ONE-WAY unary rule.  Two such strategies with different permutations (a 3-cycle and a
+    transposition on three letters) produce overlapping DIRECTED cycles of one-way rules — classes
+    that are equivalent only through connect_cycles merging several cycles that share vertices
+    (seed C02b needed them to manifest)."""
+
+    def __init__(self, perm=(1, 2, 0)):
+        super().__init__(ignore_parent=False, inferrable=False, possibly_empty=False, workable=True)
+        self.perm = tuple(perm)
+
+    def _map(self, w, alphabet):
+        if len(alphabet) != len(self.perm):
+            return None
+        table = {alphabet[i]: alphabet[j] for i, j in enumerate(self.perm)}
+        return "".join(table[x] for x in w)
+
+    def decomposition_function(self, c):
+        if len(c.alphabet) != len(self.perm):
+            return None
+        return (AvoidingWithPrefix(self._map(c.prefix, c.alphabet), [self._map(p, c.alphabet) for p in c.patterns],
+                                   c.alphabet, c.just_prefix),)
+
+    def is_two_way(self, comb_class):
+        return False
+
+    def is_reversible(self, comb_class):
+        return False
+
+    def formal_step(self):
+        return "relabel the letters by %s (one way)" % (self.perm,)
+
+    def forward_map(self, comb_class, obj, children=None):
+        return (Word(self._map(obj, comb_class.alphabet)),)
+
+    def backward_map(self, comb_class, objs, children=None):
+        inv = [0] * len(self.perm)
+        for i, j in enumerate(self.perm):
+            inv[j] = i
+        table = {comb_class.alphabet[i]: comb_class.alphabet[j] for i, j in enumerate(inv)}
+        yield Word("".join(table[x] for x in objs[0]))
+
+    def to_jsonable(self):
+        d = super().to_jsonable()
+        d["perm"] = list(self.perm)
+        return d
+
+    @classmethod
+    def from_dict(cls, d):
+        return cls(tuple(d.get("perm", (1, 2, 0))))
+
+    def __repr__(self):
+        return "PermuteLettersOneWay(%r)" % (self.perm,)
+
+    def __str__(self):
+        return self.formal_step()
+
+
 class RemoveFrontLetterwise(RemoveFrontOfPrefix):
     """RemoveFrontOfPrefix with ONE FACTOR PER REMOVED LETTER: a product of k atoms and the
     remaining class (k + 1 >= 3 children as soon as two letters can be removed), the non-atom
@@ -290,6 +348,21 @@ PACKS = {
                                    [AtomStrategy()], name="oneway"),
     "iterative": lambda: StrategyPack([RemoveFrontOfPrefix()], [], [[ExpansionStrategy()]], [AtomStrategy()],
                                       name="iterative", iterative=True),
+    # overlapping directed cycles of one-way unary rules (a 3-cycle and a transposition of the letters)
+    "oneway3": lambda: StrategyPack([RemoveFrontOfPrefix(), PermuteLettersOneWay((1, 2, 0)),
+                                     PermuteLettersOneWay((1, 0, 2))], [], [[ExpansionStrategy()]],
+                                    [AtomStrategy()], name="oneway3"),
+    "oneway3_rot": lambda: StrategyPack([RemoveFrontOfPrefix(), PermuteLettersOneWay((1, 2, 0)),
+                                         PermuteLettersOneWay((2, 0, 1))], [], [[ExpansionStrategy()]],
+                                        [AtomStrategy()], name="oneway3_rot"),
+    "oneway3_rot_sets": lambda: StrategyPack([PermuteLettersOneWay((1, 2, 0))], [],
+                                             [[RemoveFrontOfPrefix(), PermuteLettersOneWay((2, 0, 1))],
+                                              [ExpansionStrategy()]],
+                                             [AtomStrategy()], name="oneway3_rot_sets"),
+    "oneway3_late": lambda: StrategyPack([RemoveFrontOfPrefix()], [],
+                                         [[ExpansionStrategy()],
+                                          [PermuteLettersOneWay((1, 0, 2)), PermuteLettersOneWay((2, 0, 1))]],
+                                         [AtomStrategy()], name="oneway3_late"),
     # products with three and more factors (seed C01a needed them to manifest)
     "letterwise": lambda: StrategyPack([RemoveFrontLetterwise(0)], [], [[ExpansionStrategy()]], [AtomStrategy()],
                                        name="letterwise"),
@@ -326,6 +399,11 @@ START_SPECS = [
     ("abab", ["bb"], "ab"),
     ("cabc", ["aa", "cb"], "abc"),
     ("bab", ["aab"], "ab"),
+    # three letters: the relabelling packs (oneway3*) act on these
+    ("", ["ab"], "abc"),
+    ("", ["ab", "bc"], "abc"),
+    ("a", ["ab", "ca"], "abc"),
+    ("", ["abc"], "abc"),
 ]
 
 
@@ -372,4 +450,11 @@ def random_cfg(rng):
     }
     if cfg["pack"] == "iterative" or cfg["ruledb"].startswith("forest"):
         cfg["smallest"] = False
+    if cfg["pack"].startswith("oneway3") and rng.random() < 0.85:
+        # the relabelling packs only act on three-letter alphabets
+        cfg["start"] = rng.choice([i for i, sp in enumerate(START_SPECS) if len(sp[2]) == 3])
+    # how many work packets are processed between two has_specification() calls (auto_search's
+    # time slicing makes this arbitrary): cycles of one-way rules are merged by connect_cycles at
+    # those calls only, so several new cycles may or may not be seen for the first time together
+    cfg["check_every"] = rng.choice([1, 1, 2, 3, 5, 8, 13, 30])
     return cfg
